@@ -69,3 +69,32 @@ def weak_skew(rng, n, p):
     """nearly incompressible: uniform bytes, a fraction p replaced by one of three frequent symbols"""
     thr = int(p * 1000000)
     return bytes((65 + rng.below(3)) if rng.below(1000000) < thr else rng.below(256) for _ in range(n))
+
+
+def no_repeat_skewed(rng, n, k=64):
+    """n bytes over k symbols with a skewed distribution and no repeated 5-gram (so a matcher with minimum match 5
+    finds nothing and all n bytes become literals)"""
+    base = rng.below(256 - k)
+    out = bytearray(base + min(rng.below(k), rng.below(k)) for _ in range(n))
+    seen = set()
+    for i in range(n - 4):
+        tries = 0
+        while bytes(out[i:i + 5]) in seen and tries < 50:
+            out[i + 4] = base + rng.below(k)
+            tries += 1
+        seen.add(bytes(out[i:i + 5]))
+    return bytes(out)
+
+
+def flat_then_skew(rng, k=200, times=6, first_len=131072, second_len=97000):
+    """block 1: a flat histogram over k values (times each, shuffled) followed by repetitions of itself (long matches,
+    the literals do not pay for a Huffman table); block 2: the same values, the highest ones much more frequent"""
+    L = [v for v in range(k) for _ in range(times)]
+    for i in range(len(L) - 1, 0, -1):
+        j = rng.below(i + 1)
+        L[i], L[j] = L[j], L[i]
+    L = bytes(L)
+    b1 = (L * (first_len // len(L) + 1))[:first_len]
+    pool = [v for v in range(k) for _ in range(1)] + [v for v in range(k - 8, k) for _ in range(100)]
+    b2 = bytes(pool[rng.below(len(pool))] for _ in range(second_len))
+    return b1, b2
